@@ -78,6 +78,6 @@ m = {
  ],
  "checks": checks,
  "not_applicable": sorted(na, key=lambda e: e["property_id"]),
- "notes": "fix: commits in /repo: 82c6c38 (OmegaMap code, C14), 047054a (sigma/tau clamped in place, C09), d4cf81c (vfeat scaled in place, C09), 84060c1 (stale index in nr_uks_nldf, C09), 416ce1f (batched NLDF potential from last cache, C09), 0de4126 (two-sample model evaluation raised, C09), c18ba20 (racy k loop in atc_reciprocal_convolution, C10), d990871 (reference energies not stored with a correlation kernel first, C16), 1ac148e (KernelEvaluator kept strided views, C14), ca0230b (half-initialised NLDF generator after an interrupted rebuild, C09), 0ad5255 (NULL pointer freed by a destructor after an interrupted constructor, C09), 670cafa (screened multi-contraction shells zeroed neighbouring rows in the SDMX radial loop: schedule-dependent result and heap overflow, C10). All are recorded as fixed in /verif/known_findings.json. No source hooks. See DESIGN.md.",
+ "notes": "fix: commits in /repo: 82c6c38 (OmegaMap code, C14), 047054a (sigma/tau clamped in place, C09), d4cf81c (vfeat scaled in place, C09), 84060c1 (stale index in nr_uks_nldf, C09), 416ce1f (batched NLDF potential from last cache, C09), 0de4126 (two-sample model evaluation raised, C09), c18ba20 (racy k loop in atc_reciprocal_convolution, C10), d990871 (reference energies not stored with a correlation kernel first, C16), 1ac148e (KernelEvaluator kept strided views, C14), ca0230b (half-initialised NLDF generator after an interrupted rebuild, C09), 0ad5255 (NULL pointer freed by a destructor after an interrupted constructor, C09), 670cafa (screened multi-contraction shells zeroed neighbouring rows in the SDMX radial loop: schedule-dependent result and heap overflow, C10), efb8e5b (rks_grad.get_vxc_nldf wrong for several density matrices in one call, C09). All are recorded as fixed in /verif/known_findings.json. No source hooks. See DESIGN.md.",
 }
 json.dump(m, open("/verif/MANIFEST.json", "w"), indent=1)
